@@ -57,7 +57,9 @@ Inductive c06_case :=
        (impl_bytes : list N) (impl_dec : list command) (impl_applied : list obs_face)
 | KApply (m : face_modify) (g : face) (impl : obs_face)
 | KWrite (f0 : face) (hist : list hitem) (cuts : list nat) (bytes : list N) (impl_cells : list (N * obs_face))
-| KDec (bytes : list N) (cuts : list nat) (impl_dec impl_whole : list command).
+| KDec (bytes : list N) (cuts : list nat) (impl_dec impl_whole : list command)
+(* a list of Face / FaceModify / Char commands written through ONE TTYEncoder, decoded under cuts *)
+| KStream (cmds : list command) (cuts : list nat) (impl_bytes : list N) (impl_dec : list command).
 
 Definition first_modify (l : list command) : option face_modify :=
   match l with CmdFaceModify m :: _ => Some m | _ => None end.
@@ -66,6 +68,32 @@ Definition cells_eqb (x : list cell) (y : list (N * obs_face)) : bool :=
   list_eqb2 (fun a b => (fst a =? fst b) && face_eqb (snd a) (obs_bits (snd b))) x y.
 Definition rcells_eqb (x : list rcell) (y : list (N * obs_face)) : bool :=
   list_eqb2 (fun a b => (fst a =? fst b) && rface_eqb (snd a) (obs_rface (snd b))) x y.
+
+(* three renditions differing from each other in every aspect *)
+Definition probes : list rface :=
+  [rface_default;
+   mkR (Some (RGBA 1 1 1 255)) (Some (RGBA 2 2 2 255)) UDotted true true true true true;
+   mkR (Some (RGBA 3 3 3 255)) (Some (RGBA 4 4 4 255)) UDashed true true true false true].
+
+(* what a stream of commands must read back as: each non-empty modification as itself, the empty
+   one as nothing, each character as itself, each Face as ONE modification that turns any rendition
+   into that face (minus inverse video) *)
+Fixpoint stream_ok (cmds dec : list command) : bool :=
+  match cmds with
+  | [] => match dec with [] => true | _ => false end
+  | CmdFaceModify m :: r =>
+      if fm_is_empty m then stream_ok r dec
+      else match dec with d :: dec' => command_eqb d (CmdFaceModify m) && stream_ok r dec' | [] => false end
+  | CmdChar c :: r =>
+      match dec with d :: dec' => command_eqb d (CmdChar c) && stream_ok r dec' | [] => false end
+  | CmdFace f :: r =>
+      match dec with
+      | CmdFaceModify m' :: dec' =>
+          forallb (fun p => rface_eqb (rapply m' p) (expressible (abs_face f))) probes && stream_ok r dec'
+      | _ => false
+      end
+  | CmdRaw _ :: r => stream_ok r dec
+  end.
 
 Definition c06_check (c : c06_case) : bool * bool :=
   match c with
@@ -106,12 +134,22 @@ Definition c06_check (c : c06_case) : bool * bool :=
            | None => false
            end
         && forallb (fun c => obs_consistent (snd c)) impl_cells in
+      (* decided here, not by a tag of the generator: a history with an inexpressible parameter
+         (known finding C06-inexpressible: 7 / 27 / 39 / 49) must show exactly the recorded
+         behaviour -- the reference machine with those four parameters as no-ops; every other
+         history the reference machine itself *)
       let holds :=
-        negb (hist_wf hist) || rcells_eqb (ref_cells (abs_face f0) hist) impl_cells in
+        negb (hist_wf hist)
+        || rcells_eqb (if hist_expressible hist then ref_cells (abs_face f0) hist
+                       else ref_cells_lib (abs_face f0) hist) impl_cells in
       (agree, holds)
   | KDec bytes cuts impl_dec impl_whole =>
       (ocmds_eqb (option_map fst (decode_chunks st_init (chunk_at cuts bytes))) impl_dec,
        list_eqb command_eqb impl_dec impl_whole)
+  | KStream cmds cuts impl_bytes impl_dec =>
+      (nlist_eqb (concat (map encode cmds)) impl_bytes
+       && ocmds_eqb (option_map fst (decode_chunks st_init (chunk_at cuts impl_bytes))) impl_dec,
+       stream_ok cmds impl_dec)
   end.
 
 Definition c06_report := report c06_check.
